@@ -81,30 +81,57 @@ func (c *Ctx) checkRing() {
 	r.Check(okTie, "C17.1-ring", fk(less)+": key comparison only on equal hashes", c.P.Pos(less.Pos()), "", "the comparator's tie-break is not guarded by hash equality")
 	// Get wraps
 	keysF := c.field("server/ringhash", "Ring", "keys")
-	wrap := false
+	// every indexing of the replica list by the search result happens only where the result is below
+	// len(keys) (or the index is a phi that is 0 on the other edge), and the first replica is what
+	// is used otherwise
+	wrap, zeroPhi := true, false
+	isLen := isLenOf(core.IsFieldLoad(keysF))
+	nIdx := 0
 	core.AllInstrs(get, func(in ssa.Instruction) {
-		ifi, ok := in.(*ssa.If)
-		if !ok {
+		ia, ok := in.(*ssa.IndexAddr)
+		if !ok || !core.IsFieldLoad(keysF)(ia.X) {
 			return
 		}
-		a := core.NormCond(ifi.Cond)
-		if a.Op == token.EQL && (isLenOf(core.IsFieldLoad(keysF))(a.X) || isLenOf(core.IsFieldLoad(keysF))(a.Y)) {
-			// on the equal edge idx becomes 0: the index used afterwards is a phi with constant 0
-			wrap = true
-		}
-	})
-	zeroPhi := false
-	core.AllInstrs(get, func(in ssa.Instruction) {
-		if ia, ok := in.(*ssa.IndexAddr); ok {
-			if phi, ok := ia.Index.(*ssa.Phi); ok {
-				for _, e := range phi.Edges {
-					if core.IsConstInt(0)(e) {
-						zeroPhi = true
+		nIdx++
+		switch idx := ia.Index.(type) {
+		case *ssa.Const:
+			if core.IsConstInt(0)(idx) {
+				zeroPhi = true
+				return
+			}
+			wrap = false
+		case *ssa.Phi:
+			for _, e := range idx.Edges {
+				if core.IsConstInt(0)(e) {
+					zeroPhi = true
+				}
+			}
+			// the non-zero edges come from the `idx == len` test's other side
+			hasTest := false
+			core.AllInstrs(get, func(x ssa.Instruction) {
+				if ifi, ok := x.(*ssa.If); ok {
+					a := core.NormCond(ifi.Cond)
+					if a.Op == token.EQL && (isLen(a.X) || isLen(a.Y)) {
+						hasTest = true
 					}
 				}
+			})
+			if !hasTest {
+				wrap = false
+			}
+		default:
+			same := func(v ssa.Value) bool { return v == ia.Index }
+			gLess := core.LessGuard("idx<len(keys)", same, isLen, true)
+			gNe := core.EqGuard("idx!=len(keys)", same, isLen, false)
+			ok, cnt := core.GuardedBy(get, ia, gLess, gNe)
+			if !ok || cnt[0]+cnt[1] == 0 {
+				wrap = false
 			}
 		}
 	})
+	if nIdx == 0 {
+		wrap = false
+	}
 	r.Check(wrap && zeroPhi, "C17.1-ring", fk(get)+": idx == len(keys) wraps to 0", c.P.Pos(get.Pos()), "", "a key hashing beyond the last replica is not wrapped to the first one (index out of range or unowned name)")
 }
 
@@ -326,38 +353,7 @@ func voteResult(v ssa.Value, resF *types.Var) ssa.Value {
 func (c *Ctx) checkMajorityFormula(fn *ssa.Function, thr ssa.Value, at ssa.Instruction) {
 	r := c.R
 	nodesF := c.field("server", "Cluster", "nodes")
-	var eval func(v ssa.Value, n int64) (constant.Value, bool)
-	eval = func(v ssa.Value, n int64) (constant.Value, bool) {
-		switch x := v.(type) {
-		case *ssa.Const:
-			if x.Value == nil {
-				return nil, false
-			}
-			return constant.ToInt(x.Value), true
-		case *ssa.Call:
-			if isLenOf(core.IsFieldLoad(nodesF))(x) {
-				return constant.MakeInt64(n), true
-			}
-		case *ssa.BinOp:
-			a, ok1 := eval(x.X, n)
-			b, ok2 := eval(x.Y, n)
-			if !ok1 || !ok2 {
-				return nil, false
-			}
-			switch x.Op {
-			case token.ADD, token.SUB, token.MUL:
-				return constant.BinaryOp(a, x.Op, b), true
-			case token.QUO:
-				return constant.BinaryOp(a, token.QUO_ASSIGN, b), true // integer division
-			case token.SHR, token.SHL:
-				s, _ := constant.Uint64Val(b)
-				return constant.Shift(a, x.Op, uint(s)), true
-			}
-		case *ssa.Convert:
-			return eval(x.X, n)
-		}
-		return nil, false
-	}
+	eval := func(v ssa.Value, n int64) (constant.Value, bool) { return evalOverLen(v, nodesF, n) }
 	okAll := true
 	bad := ""
 	for n := int64(2); n <= 62; n++ {
@@ -389,24 +385,19 @@ func (c *Ctx) checkPartition() {
 	okFormula := false
 	detail := "no comparison of a function of len(nodes) with len(activeNodes) found"
 	core.AllInstrs(isPart, func(in ssa.Instruction) {
-		b, ok := in.(*ssa.BinOp)
+		ret, ok := in.(*ssa.Return)
 		if !ok {
 			return
 		}
-		var lhs ssa.Value
-		switch b.Op {
-		case token.GEQ:
-			if isLenOf(core.IsFieldLoad(activeF))(b.Y) {
-				lhs = b.X
-			}
-		case token.LEQ:
-			if isLenOf(core.IsFieldLoad(activeF))(b.X) {
-				lhs = b.Y
-			}
+		if _, isK := ret.Results[0].(*ssa.Const); isK {
+			return // the single-node early return
 		}
-		if lhs == nil {
+		// partitioned <=> active <= X <=> !(X < active), in any spelling
+		a := core.NormCond(ret.Results[0])
+		if a.Op != token.LSS || !a.Negated || !isLenOf(core.IsFieldLoad(activeF))(a.Y) {
 			return
 		}
+		lhs := a.X
 		okFormula = true
 		for n := int64(2); n <= 62; n++ {
 			v, ok := evalOverLen(lhs, nodesF, n)
@@ -448,6 +439,16 @@ func (c *Ctx) checkPartition() {
 }
 
 func evalOverLen(v ssa.Value, lenOf *types.Var, n int64) (constant.Value, bool) {
+	return evalOverLenEnv(v, lenOf, n, nil, 0)
+}
+
+// evalOverLenEnv folds a pure integer expression over len(<field lenOf>) = n; parameters are looked
+// up in env; calls of single-block module functions returning one expression are evaluated with
+// their arguments (an extracted formula helper).
+func evalOverLenEnv(v ssa.Value, lenOf *types.Var, n int64, env map[ssa.Value]constant.Value, depth int) (constant.Value, bool) {
+	if k, ok := env[v]; ok {
+		return k, true
+	}
 	switch x := v.(type) {
 	case *ssa.Const:
 		if x.Value == nil {
@@ -458,9 +459,31 @@ func evalOverLen(v ssa.Value, lenOf *types.Var, n int64) (constant.Value, bool) 
 		if isLenOf(core.IsFieldLoad(lenOf))(x) {
 			return constant.MakeInt64(n), true
 		}
+		callee := x.Call.StaticCallee()
+		if depth < 2 && core.InModule(callee) && len(callee.Blocks) == 1 && callee.Signature.Results().Len() == 1 {
+			ret, ok := callee.Blocks[0].Instrs[len(callee.Blocks[0].Instrs)-1].(*ssa.Return)
+			if !ok {
+				return nil, false
+			}
+			env2 := map[ssa.Value]constant.Value{}
+			for i, p := range callee.Params {
+				if i >= len(x.Call.Args) {
+					return nil, false
+				}
+				if _, isInt := p.Type().Underlying().(*types.Basic); !isInt {
+					continue
+				}
+				a, ok := evalOverLenEnv(x.Call.Args[i], lenOf, n, env, depth)
+				if !ok {
+					return nil, false
+				}
+				env2[p] = a
+			}
+			return evalOverLenEnv(ret.Results[0], lenOf, n, env2, depth+1)
+		}
 	case *ssa.BinOp:
-		a, ok1 := evalOverLen(x.X, lenOf, n)
-		b, ok2 := evalOverLen(x.Y, lenOf, n)
+		a, ok1 := evalOverLenEnv(x.X, lenOf, n, env, depth)
+		b, ok2 := evalOverLenEnv(x.Y, lenOf, n, env, depth)
 		if !ok1 || !ok2 {
 			return nil, false
 		}
@@ -468,13 +491,16 @@ func evalOverLen(v ssa.Value, lenOf *types.Var, n int64) (constant.Value, bool) 
 		case token.ADD, token.SUB, token.MUL:
 			return constant.BinaryOp(a, x.Op, b), true
 		case token.QUO:
+			if constant.Sign(b) == 0 {
+				return nil, false
+			}
 			return constant.BinaryOp(a, token.QUO_ASSIGN, b), true
 		case token.SHR, token.SHL:
 			s, _ := constant.Uint64Val(b)
 			return constant.Shift(a, x.Op, uint(s)), true
 		}
 	case *ssa.Convert:
-		return evalOverLen(x.X, lenOf, n)
+		return evalOverLenEnv(x.X, lenOf, n, env, depth)
 	}
 	return nil, false
 }
